@@ -11,8 +11,11 @@ def main():
     c = core.load_check(pid); c.setup()
     stats = collections.Counter(); sigs = collections.Counter(); shown = collections.Counter()
     t = time.time(); k = 0; nt = 0
+    import os
+    only = os.environ.get('DEV_ONLY')        # e.g. DEV_ONLY=kind=concurrent
     for case in c.cases(tier, seed):
         if k >= n: break
+        if only and str(case.get(only.split('=')[0])) != only.split('=')[1]: continue
         k += 1
         r = c.run_case(case)
         stats.update(r.stats)
